@@ -228,6 +228,9 @@ func NewMatchField[Int constraints.Integer | *big.Int | ~[]byte, Mask constraint
 		return nil, err
 	}
 	value := conv(data)
+	if value.Sign() < 0 {
+		return nil, fmt.Errorf("invalid negative data")
+	}
 	length := field.Length
 	if len(mask) > 0 {
 		var maskInt *big.Int
